@@ -112,6 +112,18 @@ def cases(rng, thorough):
             for xm in (yi, yi.astype("float32")):
                 out.append(("_mann_kendall_trend_gu", "stats", "gu", (xm,), tag + " " + str(xm.dtype), [("float32", (1,)), ("float32", (1,)), ("float32", (1,)), ("int8", (1,))]))
                 out.append(("_mann_kendall_trend_gu_nd", "stats", "gu", (xm, nd), tag + " " + str(xm.dtype), [("float32", (1,)), ("float32", (1,)), ("float32", (1,)), ("int8", (1,))]))
+    # missing cells marked by NaN / +inf / -inf (the smoothers that promise to ignore non-finite cells)
+    for n in (6, 15, 40):
+        y, nd = series(rng, n, "plain")
+        for marker in (np.nan, np.inf, -np.inf):
+            yy = y.copy()
+            yy[rng.choice(n, size=max(1, n // 5), replace=False)] = marker
+            tag = "n=%d non-finite cells %s" % (n, marker)
+            out.append(("ws2dgu", "ws2dgu", "gu", (yy, 10.0, nd), tag, [("int16", (n,))]))
+            out.append(("ws2dpgu", "ws2dpgu", "gu", (yy, 10.0, nd, 0.9), tag, [("int16", (n,))]))
+            for rb in (False, True):
+                out.append(("ws2dwcv", "ws2dwcv", "gu", (yy, nd, np.array([0.0, 1.0, 2.0]), rb), tag + " robust=%s" % rb, [("int16", (n,)), ("float64", (1,))]))
+                out.append(("ws2dwcvp", "ws2dwcvp", "gu", (yy, nd, 0.9, np.array([0.0, 1.0, 2.0]), rb), tag + " robust=%s" % rb, [("int16", (n,)), ("float64", (1,))]))
     # long series near the top of int16: accumulators must not be narrower than the compiled ones (float32 loses bits past 2**24)
     for n in (2000, 5000):
         big = rng.integers(30000, 32700, size=n).astype("int16")
